@@ -5,9 +5,9 @@ ALL = ["C%02d" % i for i in range(1, 20)]
 MC = "model_checking"
 CHECKS = {
  "C08": dict(cat=MC, engine="E2 xseq (bounded-exhaustive enumeration on the real checker/evaluator)",
-   technique="bounded-exhaustive enumeration of expression trees (depth<=2, depth-3 slice) through the real type checker and evaluator under 6 request environments vs reference typing + checked-i64 reference interpreter",
-   text="Every tree with one operator over the leaf set, every tree with one operator over leaves plus one representative depth-1 tree per (static type, outcome) class, and (thorough) a depth-3 slice are type-checked and, if accepted, evaluated by the real code under catch_unwind; oracle: no panic, runtime kind equals static type for both the raw and the coerced pair, value equals the reference interpreter where it is specified, ill-typed scalar trees are rejected at load.",
-   note="Trusts: harness profile (overflow-checks on, like the repo's dev profile); reference interpreter leaves regex/to_string-of-composites unspecified. Not covered: trees deeper than the slice, identifiers other than let-bound x,y and request.*.",
+   technique="bounded-exhaustive enumeration of expression trees (depth<=2, depth-3 slice, exhaustive let-scoping family) through the real type checker and evaluator under 6 request environments vs reference typing + checked-i64 reference interpreter",
+   text="Every tree with one operator over the leaf set, every tree with one operator over leaves plus one representative depth-1 tree per (static type, outcome) class, (thorough) a depth-3 slice, and a scoping family (7 040 trees: 4 literals x 10 aggregate shapes mentioning a let-bound name x 16 uses x {plain, aggregate leaves the name's scope, sibling binding, name re-bound to each of 4 literals in a nested / the same let}) are type-checked and, if accepted, evaluated by the real code under catch_unwind; oracle: no panic, runtime kind equals static type for both the raw and the coerced pair, value equals the lexically scoped reference interpreter where it is specified, every evaluation failure is one of the inherently dynamic errors (classified by its text), ill-typed scalar trees are rejected at load.",
+   note="Trusts: harness profile (overflow-checks on, like the repo's dev profile); reference interpreter leaves regex matching/to_string-of-composites unspecified and accepts both lazy and strict evaluation of aggregate members (the statement fixes neither). Not covered: trees deeper than the slice, identifiers other than let-bound x,y and request.*.",
    ref="DESIGN.md §3 C08"),
  "C09": dict(cat=MC, engine="E2 xseq (bounded-exhaustive enumeration on the real parser)",
    technique="bounded-exhaustive enumeration of operator chains and token-boundary fillers on the real milu parser vs precedence-climbing reference derived from milu/readme.md",
